@@ -10,7 +10,7 @@ CONSTANTS
   Policy <- PolGreedy
   NSteps = 1
   Dt = 1
-  OutEvery = 1
+  OutDt = 1
   Events <- NoEvents
   WithEstimation = TRUE
   WithSerendipity = TRUE
@@ -20,6 +20,7 @@ CONSTANTS
   KeepMissedAcrossSteps = FALSE
   PriorityToAllEngines = FALSE
   PruneKeepsEqual = FALSE
+  PartialCommit = FALSE
 INVARIANT OneRecordPerTasking
 INVARIANT NoRecordWithoutTasking
 INVARIANT PointingReflectsTasking
